@@ -316,7 +316,8 @@ func dnsScenarioC09(w *dnsWorld) {
 	w.checkCoalescing()
 	w.checkCacheContents()
 	w.env("reset", func() { _ = w.ctl.ResetDnsForwarders() })
-	s.Quiesce(func() bool { return w.envTasks == 0 }, 0, 30*time.Second)
+	// queries still waiting for an upstream (e.g. a background refresh) end by their timeouts
+	s.Quiesce(func() bool { return w.envTasks == 0 && w.fwdInFlight() == 0 }, 0, 30*time.Second)
 	if !s.Failed() {
 		w.checkForwardersRetired("after ResetDnsForwarders at quiescence")
 	}
